@@ -99,7 +99,7 @@ func child(reps int) {
 	}
 }
 
-var reFunc = regexp.MustCompile(`(?m)^\s*(github\.com/ddddddO/gtree[^\s(]*)`)
+var reFunc = regexp.MustCompile(`(?m)^\s*(github\.com/ddddddO/gtree\S*?)\(\)\s*$`)
 
 func main() {
 	prop := flag.String("prop", "C11", "")
